@@ -228,7 +228,7 @@ func (rd *renderer) indent(depth int) {
 
 func (rd *renderer) comment() {
 	if rd.st.Comments && rd.st.Rng != nil && rd.st.Rng.IntN(3) == 0 {
-		rd.b.WriteString("<!-- layout comment " + fmt.Sprint(rd.st.Rng.IntN(1000)) + " -->")
+		rd.b.WriteString("<!-- layout comment " + fmt.Sprint(rd.st.Rng.IntN(1000)) + commentWords[rd.st.Rng.IntN(len(commentWords))] + " -->")
 	}
 }
 
@@ -412,6 +412,9 @@ func (rd *renderer) attrVal(v string) {
 	}
 }
 
+// commentWords are things a comment may mention (comments are not markup: what they spell is nobody's business).
+var commentWords = []string{"", "", " generated by <!DOCTYPE html> tooling", " <?xml version='1.0'?>", " <!ENTITY", " xmlns:ds='urn:x' <ds:Signature>", " ]]>", " <saml:Assertion ID='_evil'>", " &amp; &#x0; &nosuchentity;"}
+
 // PIMark is a private-use character that the renderer writes as a processing
 // instruction inside character data; it is not part of the value (see StripMarks).
 const PIMark = "\uE000"
@@ -444,6 +447,10 @@ func (rd *renderer) text(s string) {
 	rng := rd.st.Rng
 	if rd.st.TextTricks == 0 || rng == nil || s == "" {
 		escText(&rd.b, s)
+		return
+	}
+	if rd.st.TextTricks == 4 && rng.IntN(5) == 0 && !strings.Contains(s, "]]>") && !strings.ContainsAny(s, "\r"+PIMark) {
+		rd.b.WriteString("<![CDATA[" + s + "]]>") // the whole value as one CDATA section: markup-like text appears literally
 		return
 	}
 	runes := []rune(s)
